@@ -254,6 +254,45 @@ def float_monitors(chk, tier):
     reset_manager()
 
 
+def dense_count_sweep(chk, tier):
+    """Udt must be the Ndense-th power of the elementary step for EVERY time step / dense setting: a two-level system with a
+    diagonal Hamiltonian and no relaxation makes the coherence element U[0,1,0,1] the scalar z^Ndense, z the order-4 Taylor value
+    of exp(-i w dt_dense), so the number of contracted dense steps is read off exactly (cheap: sweeps all settings)."""
+    import quantarhei as qr
+    from quantarhei.qm.liouvillespace.relaxationtensor import RelaxationTensor
+    from quantarhei.qm.liouvillespace.evolutionsuperoperator import EvolutionSuperOperator
+    steps = [0.5, 1.0, 2.0, 5.0, 7.0, 10.0, 20.0, 25.0, 50.0, 0.3, 0.1]
+    denses = list(range(1, 121)) if tier != "quick" else [d for d in range(1, 121)]
+    w = 0.01
+    bad = 0
+    for step in steps:
+        for nd in denses:
+            reset_manager()
+            with contextlib.redirect_stdout(io.StringIO()):
+                RT = RelaxationTensor()
+                RT.dim = 2
+                RT.data = np.zeros((2, 2, 2, 2), dtype=complex)
+                ta = qr.TimeAxis(0.0, 3, step)
+                U = EvolutionSuperOperator(time=ta, ham=qr.Hamiltonian(data=np.diag([0.0, w / step])), relt=RT, mode="all")
+                U.set_dense_dt(nd)
+                U.calculate()
+                d = np.array(U.data)
+            x = -1j * (-(w / step)) * (step / nd)          # rho_01 rotates with +i w t
+            z = 1 + x + x ** 2 / 2 + x ** 3 / 6 + x ** 4 / 24
+            want1, want2 = z ** nd, z ** (2 * nd)
+            if abs(d[1, 0, 1, 0, 1] - want1) > 1e-9 or abs(d[2, 0, 1, 0, 1] - want2) > 1e-9:
+                bad += 1
+                if bad <= 2:
+                    k_eff = np.log(d[1, 0, 1, 0, 1]) / np.log(z)
+                    c = {"kind": "dense_count", "step": step, "ndense": nd}
+                    chk.violation("dense_count", "time step %g with dense setting %d: U(t_1) is the elementary step to the power %.3f, not %d "
+                                  "(U[0,1,0,1] = %r, expected %r): the superoperator does not reproduce propagation with the same internal step"
+                                  % (step, nd, float(np.real(k_eff)), nd, complex(d[1, 0, 1, 0, 1]), complex(want1)), "monitor", c)
+            chk.case(("dense_count", step, nd), nd > 1)
+    chk.count("dense_count_sweep", len(steps) * len(denses))
+    reset_manager()
+
+
 IMPORTS = "From QV Require Import Base.Alg Base.Sums Base.Mat Base.Tens Base.Util Model.C01 Model.C02 Model.C08.\n"
 
 
@@ -284,6 +323,7 @@ def main():
             reset_manager()
     if not args.replay:
         float_monitors(chk, args.tier)
+        dense_count_sweep(chk, args.tier)
     shards = [cm.HEADER + IMPORTS + "Definition cs : list case08 := [%s].\nEval vm_compute in (bad agrees08 cs).\n" % it for it in items]
     for k, (rc, out) in enumerate(cm.coq_eval(PID, shards, timeout=1500)):
         if rc != 0:
